@@ -805,7 +805,7 @@ func (vfs *MemFS) Rename(oldpath, newpath string) error {
 	}
 
 	nParent, nChild, nPI, nErr := vfs.searchNode(newpath, slmLstat)
-	if (nErr != vfs.err.FileExists && !vfs.isNotExist(nErr)) || nParent == nil {
+	if (nErr != vfs.err.FileExists && !vfs.isNotExist(nErr)) || nParent == nil || (nChild == nil && !nPI.IsLast()) {
 		return &os.LinkError{Op: op, Old: oldpath, New: newpath, Err: nErr}
 	}
 
